@@ -73,6 +73,22 @@ def observe(mid, what):
                               mid.play(meta_messages=True, now=clock.now)]
             finally:
                 mf.time = saved
+        if what in ('play-abandoned', 'iter-abandoned'):
+            clock = _Clock()
+            saved = mf.time
+            mf.time = clock
+            try:
+                gen = mid.play(meta_messages=True, now=clock.now) if what == 'play-abandoned' else iter(mid)
+                got = []
+                for m in gen:
+                    got.append((type(m).__name__, dict(vars(m))))
+                    if len(got) >= 2:
+                        break
+                if hasattr(gen, 'close'):
+                    gen.close()
+                return 'ok', got
+            finally:
+                mf.time = saved
         if what == 'save':
             buf = io.BytesIO()
             mid.save(file=buf)
@@ -317,7 +333,7 @@ class FileMachine(RuleBasedStateMachine):
     def set_tpb(self, v):
         self.ops.append(['tpb', v])
 
-    @rule(what=st.sampled_from(['iter', 'length', 'merged', 'play', 'save']))
+    @rule(what=st.sampled_from(['iter', 'length', 'merged', 'play', 'save', 'play-abandoned', 'iter-abandoned']))
     def observe(self, what):
         self.ops.append(['observe', what])
 
@@ -340,7 +356,7 @@ def main(ctx):
     w = 8 if ctx.tier == 'quick' else 16
     ctx.pmap('machine_shard', [(k, n // w, 25 if ctx.tier == 'quick' else 40) for k in range(w)])
     # the documented two-message example and its variants, for every observation pair
-    for first in ('length', 'iter', 'merged', 'play', 'save'):
+    for first in ('length', 'iter', 'merged', 'play', 'save', 'play-abandoned', 'iter-abandoned'):
         for second in ('length', 'iter', 'merged', 'play', 'save'):
             for edit in (['msg_append', 0, 1, 480], ['msg_set', 0, 0, 'time', 960], ['msg_set', 0, 0, 'field', 5],
                          ['msg_replace', 0, 3, 0, 0], ['tracks_append', [[0, 480]]], ['tpb', 96], ['msg_del', 0, 0],
